@@ -490,7 +490,19 @@ func (r *runner) compileGroup(cdir, name string, ids []int) (map[int]*Failure, e
 	for round := 0; len(cur) > 0; round++ {
 		tu := filepath.Join(cdir, fmt.Sprintf("%s-%d.c", name, round))
 		var b strings.Builder
-		b.WriteString("#define WUFFS_IMPLEMENTATION\n#include \"./wuffs-base.c\"\n")
+		// Every generated file enables only its own module unless the
+		// modules are listed explicitly: list base, every std package (they
+		// are compiled only when a program includes them) and the programs.
+		b.WriteString("#define WUFFS_IMPLEMENTATION\n#define WUFFS_CONFIG__MODULES\n#define WUFFS_CONFIG__MODULE__BASE\n")
+		stds, _ := filepath.Glob(filepath.Join(cdir, "wuffs-std-*.c"))
+		for _, sp := range stds {
+			name := strings.TrimSuffix(strings.TrimPrefix(filepath.Base(sp), "wuffs-std-"), ".c")
+			fmt.Fprintf(&b, "#define WUFFS_CONFIG__MODULE__%s\n", strings.ToUpper(name))
+		}
+		for _, id := range cur {
+			fmt.Fprintf(&b, "#define WUFFS_CONFIG__MODULE__P%d\n", id)
+		}
+		b.WriteString("#include \"./wuffs-base.c\"\n")
 		for _, id := range cur {
 			fmt.Fprintf(&b, "#include \"./p%d.c\"\n", id)
 		}
